@@ -37,10 +37,17 @@ func ResetGlobals() {
 }
 
 // RunBlock executes block in a fresh function-scope fork (the seam test.RunMurexTests uses).
-func RunBlock(block string, module string) Result {
+func RunBlock(block string, module string) Result { return RunBlockWith(block, module, nil) }
+
+// RunBlockWith calls afterFork once the fork and its (production-sized) output streams exist and
+// before the block runs.
+func RunBlockWith(block string, module string, afterFork func()) Result {
 	fork := lang.ShellProcess.Fork(lang.F_FUNCTION | lang.F_NEW_MODULE | lang.F_NO_STDIN | lang.F_CREATE_STDOUT | lang.F_CREATE_STDERR)
 	fork.Name.Set("verif")
 	fork.FileRef = &ref.File{Source: &ref.Source{Module: module}}
+	if afterFork != nil {
+		afterFork()
+	}
 	exitNum, _ := fork.Execute([]rune(block))
 	bErr, _ := fork.Stderr.ReadAll()
 	bOut, _ := fork.Stdout.ReadAll()
